@@ -241,73 +241,25 @@ func associative(t token.Type) bool {
 	}
 }
 
-// firstToken returns the token the printed form of the node starts with.
-func firstToken(node Node) *token.Token {
-	switch n := node.(type) {
-	case *InfixExpression:
-		return firstToken(n.Left)
-	case *IndexExpression:
-		return firstToken(n.Left)
-	case *CallExpression:
-		return firstToken(n.Function)
-	case *PostfixExpression:
-		return n.Prev
-	case *FunctionLiteral:
-		if n.IsLambda {
-			if len(n.Parameters) == 1 {
-				return firstToken(n.Parameters[0])
-			}
-			return token.ByType(token.LPAREN)
+// Compact mode: decide which separator (if any) is needed before the printed form of the next statement.
+func compactSeparator(ps *PrintState, s Node, text string) string {
+	switch text[0] {
+	case '(', '[':
+		return " " // a (b) is not the call a(b), a [b] is not the index a[b].
+	case '+', '-', '^':
+		if ps.prev != nil && !isComment(ps.prev) {
+			return ";" // a;-b is not a-b.
 		}
-	}
-	if node == nil || node.Value() == nil {
-		return nil
-	}
-	return node.Value()
-}
-
-// continuesPrevious is true when a statement starting with that token would be parsed as the continuation
-// of the previous statement's expression (a;-b is not a-b), so a ; is needed in between.
-func continuesPrevious(prev, cur Node) bool {
-	if prev == nil || isComment(prev) {
-		return false
-	}
-	t := firstToken(cur)
-	if t == nil {
-		return false
-	}
-	switch t.Type() { //nolint:exhaustive // only these can continue an expression.
-	case token.MINUS, token.PLUS, token.BITXOR, token.INCR, token.DECR:
-		return true
-	default:
-		return false
-	}
-}
-
-// Compact mode: Skip comments and decide if we need a space separator or not.
-func prettyPrintCompact(ps *PrintState, s Node, i int) bool {
-	if isComment(s) {
-		return true
-	}
-	if i > 0 && continuesPrevious(ps.prev, s) {
-		ps.Print(";")
-		return false
-	}
-	if t := firstToken(s); i > 0 && t != nil && (t.Type() == token.LPAREN || t.Type() == token.LBRACKET) {
-		// a (b) is not the call a(b), a [b] is not the index a[b].
-		_, _ = ps.Out.Write([]byte{' '})
-		ps.last = " "
-		return false
 	}
 	_, prevIsExpr := ps.prev.(*InfixExpression)
 	_, curIsArray := s.(*ArrayLiteral)
 	if curIsArray || (prevIsExpr && ps.last != "}" && ps.last != "]") {
-		if i > 0 {
-			_, _ = ps.Out.Write([]byte{' '})
-			ps.last = " "
-		}
+		return " "
 	}
-	return false
+	if glued(ps.lastWritten(), text) {
+		return " "
+	}
+	return ""
 }
 
 // Normal/long form print: Decide if using new line or space as separator.
@@ -334,12 +286,25 @@ func (p Statements) PrettyPrint(ps *PrintState) *PrintState {
 	var i int
 	for _, s := range p.Statements {
 		if ps.Compact {
-			if prettyPrintCompact(ps, s, i) {
+			if isComment(s) {
 				continue // skip comments entirely.
 			}
-		} else {
-			prettyPrintLongForm(ps, s, i)
+			// Print the statement aside first: what it starts with (after precedence parentheses etc.) decides the separator.
+			sub := *ps
+			buf := &strings.Builder{}
+			sub.Out = buf
+			s.PrettyPrint(&sub)
+			text := buf.String()
+			if i > 0 && text != "" {
+				_, _ = ps.Out.Write([]byte(compactSeparator(ps, s, text)))
+			}
+			_, _ = ps.Out.Write([]byte(text))
+			ps.last = sub.last
+			ps.prev = s
+			i++
+			continue
 		}
+		prettyPrintLongForm(ps, s, i)
 		s.PrettyPrint(ps)
 		ps.prev = s
 		i++
